@@ -859,7 +859,10 @@ class BaseConnector:
         should_close: bool = False,
     ) -> None:
         if self._closed:
-            # acquired connection is already released on connector closing
+            # acquired connection is already released on connector closing;
+            # one that never was in the acquired set (a CONNECT tunnel being
+            # set up) has not been closed by close()
+            protocol.close()
             return
 
         self._release_acquired(key, protocol)
